@@ -11,11 +11,11 @@ from c05 import load_coeffs, call_impl
 
 PROP = "C13"
 RULE = ("calibrate_thermal on all 17 spacecraft x 3 thermal channels: passes of 60..200 lines with telemetry in the operating "
-        "range (target 285..305 K, C_S 950..1000, C_BB from the target temperature), ALL counts 0..1023 on sampled lines "
+        "range (target 285..305 K, the four thermometers at equal or different temperatures, passes of 52..120 lines, C_S 950..1000, C_BB from the target temperature), ALL counts 0..1023 on sampled lines "
         "(monotonicity), count = smoothed target count (anchor), five starting phases of one underlying line stream "
         "(phase-freedom, lines further than 25 from either end), permuted pixels (locality). A case = (spacecraft, "
         "channel, telemetry level); non-trivial = all")
-ASSUME = ["the anchor is checked on constant telemetry (smoothed = raw) so that the expected target temperature is the PRT polynomial mean",
+ASSUME = ["the anchor is checked on target/space counts constant along the pass and each thermometer constant (the four may differ): the expected target temperature is the mean of the four PRT polynomial values",
           "float64 monotonicity is checked with a 1e-9 K slack"]
 TB = ["coqc 8.16.1 kernel; coq-interval (Bignums: PrimInt63/Uint63 primitives and their spec axioms) for the 51 anchor bounds; "
       "Reals axioms (sig_forall_dec, sig_not_dec, functional_extensionality_dep, classic)",
@@ -44,13 +44,16 @@ def run(res, tier, seed):
         for chan in range(3):
             target = rng.choice([285.0, 290.0, 295.0, 300.0, 305.0]) if tier == "quick" else None
             for tgt in ([target] if target else [285.0, 288.0, 292.0, 296.0, 300.0, 303.0, 305.0]):
-                n = rng.choice([60, 77, 120])
+                n = rng.choice([52, 60, 77, 101, 120])
                 first = rng.choice([1, 2, 3, 4, 5])
                 lns = list(range(first, first + n))
                 residue = rng.randrange(5)
                 prt3, tvals = [], {}
+                # a temperature gradient across the target: the four thermometers read different temperatures
+                deltas = rng.choice([(0, 0, 0, 0), (-2.5, -1, 1, 2.5), (2.5, -2.5, 2.5, -2.5), (0, 0, 0, 2.5), (-2, -2, 2, 2)])
                 for k in range(1, 5):
-                    tvals[k] = prt_for_temperature(co, k, tgt)
+                    tvals[k] = prt_for_temperature(co, k, min(305.0, max(285.0, tgt + deltas[k - 1])))
+                tmean4 = sum(tvals[k][1] for k in range(1, 5)) / 4.0
                 for ln in lns:
                     k = (ln - residue) % 5
                     prt3.append(0 if k == 0 else tvals[k][0])
@@ -61,7 +64,7 @@ def run(res, tier, seed):
                 ict10 = [[10 * cbb] * 3 for _ in lns]
                 space10 = [[10 * cs] * 3 for _ in lns]
                 ctx = dict(spacecraft=sc, channel=thermal.IR[chan], target_K=tgt, lines=n, first_line=first, residue=residue,
-                           space_count=cs, target_count=cbb, seed=seed)
+                           space_count=cs, target_count=cbb, seed=seed, thermometer_offsets_K=list(deltas), mean_prt_temperature=tmean4)
                 W = 1024
                 counts = np.tile(np.arange(1024, dtype=float), (n, 1))
                 kind, out = call_impl(cal, chan, lns, prt3, ict10, space10, counts)
@@ -84,9 +87,9 @@ def run(res, tier, seed):
                 exp, sm = thermal.spec_bt(co, chan, lns, residue, [x / 3.0 for x in prt3], [float(cbb)] * n, [float(cs)] * n, {n // 2: [float(cbb)]})
                 tbb_mid = sm[0][n // 2]
                 # constant telemetry: every line (first and last included) must read the target temperature at the target count
-                for li in (0, 1, n // 2, n - 2, n - 1):
+                for li in range(n):
                     bt_anchor = float(out[li, cbb])
-                    if math.isnan(bt_anchor) or abs(bt_anchor - tbb_mid) > 1.0:
+                    if math.isnan(bt_anchor) or abs(bt_anchor - tbb_mid) > 1.0 or abs(bt_anchor - tmean4) > 1.0:
                         res.violations.append(("scene at the internal-target count does not read the internal-target temperature within 1 K",
                                                dict(ctx, line_index=li, bt=bt_anchor, target_temperature=tbb_mid)))
                         break
